@@ -1854,7 +1854,8 @@ func execMerged(c px.Context, fc *fctx, tag string, ve sx.Sexp, v px.Value, out 
 		return execMergedTyped(c, fc, tag, ve, v, out, res, fail)
 	}
 	// the user's directive for the exact type of a scalar applies to it
-	if !isContainerTag(tag) && !(tag == "t" && len(ve.Args()) > 2) {
+	if !isContainerTag(tag) && !(tag == "t" && len(ve.Args()) > 2) && !(tag == "q" && ve.Args()[1].MustStr() == "") {
+		// (a Type with parameters and an anonymous object type format nested values, to which other entries apply)
 		for _, e := range fc.m {
 			if e.key == kindKey(tag) && !e.n.hasSep && !e.n.hasSep2 && !e.n.hasCf {
 				want := renderTop(c, &fctx{mode: "kind", top: e.n, m: []entry{{key: e.key, typ: e.typ, n: e.n}}}, tag, v)
